@@ -49,7 +49,7 @@ def build(c, dr, rng, label):
     half = dr / 2.0
     if rng.random() < 0.5:
         # a size sweep on a re-used System: both diameters first get a common value, then their own
-        s.diameter[['A', 'B']] = 1.0
+        s.diameter[['A', 'B']] = 0.25 if rng.random() < 0.5 else 2.0
         order = ['B', 'A'] if rng.random() < 0.5 else ['A', 'B']
     else:
         order = ['A', 'B']
